@@ -845,6 +845,15 @@ func c01ParseCapture(c *Ctx) {
 		return ok && rl != nil && isResultOf(cv.X, rl, 0)
 	}
 	name, value := strip(callArg(ah, 0)), strip(callArg(ah, 1))
+	// the blanks RFC 3261 allows between a header name and the colon (HCOLON) are not part of the name: they are taken
+	// off with TrimRight/Trim of SP and HTAB (repaired as D30: "Via : ..." was stored under the name "Via ")
+	nameTrimmed := false
+	if tc, _ := callOfResult(name); tc != nil && (w.calleeName(tc) == "strings.TrimRight" || w.calleeName(tc) == "strings.Trim") {
+		if cutset, isC := constString(tc.Call.Args[1]); isC && cutset != "" && strings.Trim(cutset, " \t") == "" && strings.Contains(cutset, " ") && strings.Contains(cutset, "\t") {
+			nameTrimmed = true
+			name = strip(tc.Call.Args[0])
+		}
+	}
 	okName := false
 	var colon *ssa.Call
 	if sl, ok := name.(*ssa.Slice); ok && isLine(sl.X) && isZeroOrNil(sl.Low) && sl.High != nil {
@@ -871,6 +880,7 @@ func c01ParseCapture(c *Ctx) {
 		}
 	}
 	c.check(okName, rule, "ParseMessage/name", w.ipos(ah), "name = line[0:index of first ':'] (pure substring)", "the header name stored is "+w.termKey(name)+": not the untouched text before the first colon (letter case or content altered)")
+	c.check(nameTrimmed, rule, "ParseMessage/name-blanks", w.ipos(ah), "blanks between the name and the colon are not part of the name", "the header name is stored with the blanks that may stand between it and the colon (\"Via : SIP/2.0/UDP ..\" is kept under the name \"Via \"): the header is not recognised as a Via, Route, Content-Length or Call-ID - the proxy's Via goes below it, the response is not routed by it, a TCP stream loses its framing")
 	okVal := false
 	// the blanks removed around a value are SIP's: SP and HTAB. strings.TrimSpace also removes Unicode white space
 	// (U+00A0, U+0085, U+2003, U+3000 ...), which is part of a UTF-8 value
